@@ -59,7 +59,8 @@ Definition pre_count (c : case) : N := if k_cold c then 0%N else 4%N.
 
 Definition concurrent_stream (c : case) : bool :=
   String.eqb (k_stream c) "main" || String.eqb (k_stream c) "delete" ||
-  String.eqb (k_stream c) "gate-miss-dimensions" || String.eqb (k_stream c) "gate-miss-segments".
+  String.eqb (k_stream c) "gate-miss-dimensions" || String.eqb (k_stream c) "gate-miss-segments" ||
+  String.eqb (k_stream c) "gate-restart-dimensions".
 
 Definition check_read (c : case) (r : read) : verdict :=
   if rd_nil r then
